@@ -32,8 +32,11 @@ static inline const char* telKind(const Bytes& m) {
 // C01: passive reception reports exactly the valid telegrams, once, in bus order.
 class RecvMonitor : public Monitor {
  public:
-  explicit RecvMonitor(VSink* s) : sink(s) {}
+  // ownAddr >= 0: ebusd also sends in this scenario; telegrams from its own master address are C02's subject
+  // (reported with direction 'sent' when they succeed) and are neither expected nor rejected here
+  explicit RecvMonitor(VSink* s, int ownAddr = -1) : sink(s), own(ownAddr) {}
   VSink* sink;
+  int own;
   ref::WireParser p;
   std::deque<Telegram> expected;
   bool failed = false;
@@ -42,7 +45,7 @@ class RecvMonitor : public Monitor {
 
   void onDeliver(uint8_t v, int, bool) override {
     Telegram t;
-    if (p.symbol(v, &t)) expected.push_back(t);
+    if (p.symbol(v, &t) && !(own >= 0 && !t.master.empty() && t.master[0] == (uint8_t)own)) expected.push_back(t);
   }
   void onTimeout(int) override { p.timeout(); }
   void onIoError(bool) override { p.timeout(); }
@@ -50,6 +53,7 @@ class RecvMonitor : public Monitor {
     if (failed) return;
     reportsSeen++;
     Telegram got{m, s};
+    if (own >= 0 && dir == 1 && !m.empty() && m[0] == (uint8_t)own) return;  // own request reported as sent
     if (dir != 0) {
       failed = true;
       sink->add("C01/wrong-direction", "telegram " + got.str() + " reported with direction " + std::to_string(dir) + " although nothing was sent or answered");
